@@ -489,7 +489,7 @@ pub mod simstd {
                 self
             }
             pub fn open<P: AsRef<::std::path::Path>>(&self, path: P) -> io::Result<File> {
-                let path = path.as_ref().to_string_lossy().into_owned();
+                let path = crate::world::norm_path(&path.as_ref().to_string_lossy());
                 let writing = self.write || self.append;
                 if writing {
                     let c = with_world(|w| w.plan.crash.clone());
@@ -730,7 +730,7 @@ pub mod simstd {
         }
 
         pub fn metadata<P: AsRef<::std::path::Path>>(path: P) -> io::Result<Metadata> {
-            let path = path.as_ref().to_string_lossy().into_owned();
+            let path = crate::world::norm_path(&path.as_ref().to_string_lossy());
             with_world(|w| match w.fs.get(&path) {
                 Some(v) => Ok(Metadata { len: if w.sizeless.contains(&path) { 0 } else { v.len() as u64 } }),
                 None => Err(io::Error::from_raw_os_error(libc::ENOENT)),
@@ -738,7 +738,7 @@ pub mod simstd {
         }
 
         pub fn exists<P: AsRef<::std::path::Path>>(path: P) -> io::Result<bool> {
-            let path = path.as_ref().to_string_lossy().into_owned();
+            let path = crate::world::norm_path(&path.as_ref().to_string_lossy());
             Ok(with_world(|w| w.fs.contains_key(&path)))
         }
 
@@ -765,7 +765,7 @@ pub mod simstd {
         }
 
         pub fn remove_file<P: AsRef<::std::path::Path>>(path: P) -> io::Result<()> {
-            let path = path.as_ref().to_string_lossy().into_owned();
+            let path = crate::world::norm_path(&path.as_ref().to_string_lossy());
             with_world(|w| {
                 ev!(w, "unlink {}", path);
                 match w.fs.remove(&path) {
@@ -779,8 +779,8 @@ pub mod simstd {
         }
 
         pub fn rename<P: AsRef<::std::path::Path>, Q: AsRef<::std::path::Path>>(from: P, to: Q) -> io::Result<()> {
-            let from = from.as_ref().to_string_lossy().into_owned();
-            let to = to.as_ref().to_string_lossy().into_owned();
+            let from = crate::world::norm_path(&from.as_ref().to_string_lossy());
+            let to = crate::world::norm_path(&to.as_ref().to_string_lossy());
             with_world(|w| {
                 ev!(w, "rename {} {}", from, to);
                 match w.fs.remove(&from) {
@@ -1149,6 +1149,18 @@ pub mod simclap {
 
 static SANDBOX: Mutex<Option<::std::path::PathBuf>> = Mutex::new(None);
 static MIRRORED: Mutex<Vec<String>> = Mutex::new(Vec::new());
+
+/// Different spellings of one relative path name the same file: `./a//b/./c` is `a/b/c`.
+pub fn norm_path(p: &str) -> String {
+    let abs = p.starts_with('/');
+    let parts: Vec<&str> = p.split('/').filter(|c| !c.is_empty() && *c != ".").collect();
+    let joined = parts.join("/");
+    if abs {
+        format!("/{}", joined)
+    } else {
+        joined
+    }
+}
 
 fn mirrorable(path: &str) -> bool {
     !path.is_empty() && !path.starts_with('/') && !path.split('/').any(|c| c == ".." || c == "." || c.is_empty())
